@@ -54,6 +54,7 @@ type Rogue13 struct {
 	hsSecret   []byte
 	cHS, sHS   []byte
 	cAP, sAP   []byte
+	expMaster  []byte // exporter_master_secret (RFC 8446 7.1: Derive-Secret(Master, "exp master", ClientHello..server Finished))
 	sentFlight bool
 	flight     [][]byte
 	flightAt   time.Duration
@@ -301,6 +302,7 @@ func (r *Rogue13) answerHello(ch *HsMsg) error {
 	th2 := hashOf(h, r.transcript)
 	r.cAP = ExpandLabel13(h, master, "c ap traffic", th2, r.suite.hlen)
 	r.sAP = ExpandLabel13(h, master, "s ap traffic", th2, r.suite.hlen)
+	r.expMaster = ExpandLabel13(h, master, "exp master", th2, r.suite.hlen)
 
 	keys, _ := NewKeys13(r.suite.id, r.sHS)
 	d0 := plaintextRecord(22, 0, dtlsHs(2, 0, sh))
@@ -425,4 +427,13 @@ func (r *Rogue13) checkClientMessage(plain []byte) {
 		}
 		r.transcript = append(r.transcript, canonical13(f.Type, f.Body)...)
 	}
+}
+
+// Exporter is the RFC 8446 7.5 exporter with an empty context:
+// HKDF-Expand-Label(Derive-Secret(exporter_master_secret, label, ""), "exporter", Hash(""), n).
+func (r *Rogue13) Exporter(label string, n int) []byte {
+	h := r.suite.h
+	empty := hashOf(h)
+
+	return ExpandLabel13(h, ExpandLabel13(h, r.expMaster, label, empty, r.suite.hlen), "exporter", empty, n)
 }
